@@ -548,7 +548,7 @@ def fracBytes (hasMark : Bool) (fs : List G.Digit) : Bytes := if hasMark then DO
 
 theorem ofMantissa_canon (neg : Bool) (ds fs : List G.Digit) (hasMark : Bool) (e0 : Int)
     (hds : ds ≠ []) (hm : hasMark = false → fs = [])
-    (hlo : -1000 ≤ e0 - (fs.length : Int)) (hhi : e0 - (fs.length : Int) ≤ 1000) :
+    (hlo : Dec.int32Min ≤ e0 - (fs.length : Int)) (hhi : e0 - (fs.length : Int) ≤ Dec.int32Max) :
     Dec.ofMantissa (signBytes neg ++ G.digitsBytes ds ++ fracBytes hasMark fs) e0 =
       some ⟨(if neg then -(G.natOf (ds ++ fs) : Int) else (G.natOf (ds ++ fs) : Int)), e0 - fs.length⟩ := by
   have hsignDot : ∀ b ∈ signBytes neg, (b == 46) = false := by
@@ -577,7 +577,7 @@ theorem ofMantissa_canon (neg : Bool) (ds fs : List G.Digit) (hasMark : Bool) (e
     | true => simpa [signBytes, MINUS] using parseInt_minus (ds ++ fs) hne
     | false => simpa [signBytes] using parseInt_digits (ds ++ fs) hne
   have hr : ¬ (e0 - (fs.length : Int) < Dec.int32Min ∨ e0 - (fs.length : Int) > Dec.int32Max) := by
-    unfold Dec.int32Min Dec.int32Max; omega
+    omega
   unfold Dec.ofMantissa fracBytes
   cases hasMark with
   | false =>
@@ -610,7 +610,7 @@ theorem ofMantissa_canon (neg : Bool) (ds fs : List G.Digit) (hasMark : Bool) (e
 theorem ofString_canon (neg : Bool) (ds fs : List G.Digit) (hasMark : Bool) (exp : Option G.Exponent)
     (hds : ds ≠ []) (hm : hasMark = false → fs = [])
     (hexp : ∀ e, exp = some e → e.digits ≠ [] ∧ G.natOf e.digits ≤ 2147483647)
-    (hlo : -1000 ≤ G.expValue exp - (fs.length : Int)) (hhi : G.expValue exp - (fs.length : Int) ≤ 1000) :
+    (hlo : Dec.int32Min ≤ G.expValue exp - (fs.length : Int)) (hhi : G.expValue exp - (fs.length : Int) ≤ Dec.int32Max) :
     Dec.ofString (signBytes neg ++ G.digitsBytes ds ++ fracBytes hasMark fs ++ G.renderExp exp) =
       some ⟨(if neg then -(G.natOf (ds ++ fs) : Int) else (G.natOf (ds ++ fs) : Int)), G.expValue exp - fs.length⟩ := by
   have hD := allDigits_digitsBytes ds
